@@ -6,7 +6,7 @@ from manifest_data import CHECKS, NOT_APPLICABLE, HOOK_COMMITS, ENGINES, NOTES
 ENV = "GOFLAGS=-mod=mod GOPROXY=off GOSUMDB=off GOTOOLCHAIN=local"
 m = {
  "version": 1,
- "setup_cmd": f"cd /verif && {ENV} go build -o bin/vcheck ./cmd/vcheck",
+ "setup_cmd": f"cd /verif && {ENV} go build -o bin/vcheck ./cmd/vcheck && ./bin/vcheck prebuild",
  "hooks": {
   "guard": "verif",
   "enable": "go build tag: every check is built with `go test -c -tags verif` from /verif, whose go.mod replaces github.com/dominant-strategies/go-quai with /repo",
